@@ -40,8 +40,33 @@ func faultName(f gspec.Fault) string {
 	return fmt.Sprint(int(f))
 }
 
-// failureRun: a node body (returning an error or panicking, three panic flavours) or a branch
-// condition (preferably one on START) is made to fail, in one of the four paradigms, under the global
+// stateFault: a state handler (kind pre | post) of one node panics; carried by the run's context and
+// found by the hook the specs are built with (gspec.BuildOpts.OnState)
+type stateFault struct {
+	node, kind string
+	do         gspec.Fault
+}
+
+type stateFaultKey struct{}
+
+func stateHook(ctx context.Context, kind, node string, _ *gspec.St) {
+	f, _ := ctx.Value(stateFaultKey{}).(*stateFault)
+	if f == nil || f.node != node || f.kind != kind {
+		return
+	}
+	switch f.do {
+	case gspec.PanicError:
+		panic(fmt.Errorf("verif-state-handler-panic@%s:%s: %w", kind, node, gspec.ErrSentinel))
+	case gspec.PanicNilDeref:
+		var p *stateFault
+		_ = p.node
+	}
+	panic("verif-state-handler-panic@" + kind + ":" + node)
+}
+
+// failureRun: a node body (returning an error or panicking, three panic flavours), a branch
+// condition (preferably one on START) or a state handler (panicking on the run loop of its graph: the
+// graph around it, at any depth, is the unit that fails) is made to fail, in one of the four paradigms, under the global
 // handler, two undesignated handlers and handlers designated to the failing node, to a nested graph
 // around it and to some other unit. Every handler must see exactly one start and exactly one
 // end-or-error per execution unit that started — the failing unit and the graph itself included — and
@@ -54,7 +79,25 @@ func failureRun(ctx context.Context, rep *mon.Reporter, rng *mon.Rand, spec *gsp
 			startBranches = append(startBranches, b.ID)
 		}
 	}
+	// state handlers that the reference run invokes: graph name -> "pre:node" / "post:node"
+	var stateSites [][2]string
+	for _, g := range mon.SortedKeys(ref.StateLog) {
+		for _, h := range ref.StateLog[g] {
+			stateSites = append(stateSites, [2]string{g, h})
+		}
+	}
+	var sfault *stateFault
+	owner := "" // unit name of the graph on whose run loop the failing branch condition / state handler runs
 	switch {
+	case len(stateSites) > 0 && rng.Prob(0.3):
+		site := stateSites[rng.Intn(len(stateSites))]
+		i := strings.IndexByte(site[1], ':')
+		sfault = &stateFault{kind: site[1][:i], node: site[1][i+1:], do: []gspec.Fault{gspec.PanicString, gspec.PanicError, gspec.PanicNilDeref}[rng.Intn(3)]}
+		victim, kind = sfault.node, "state-"+sfault.kind+"-handler"
+		owner = "TOP"
+		if site[0] != "" {
+			owner = site[0][strings.LastIndexByte(site[0], '/')+1:]
+		}
 	case len(startBranches) > 0 && rng.Prob(0.4):
 		victim, kind = startBranches[rng.Intn(len(startBranches))], "start-branch-condition"
 	case len(spec.Branches) > 0 && rng.Prob(0.25):
@@ -69,15 +112,22 @@ func failureRun(ctx context.Context, rep *mon.Reporter, rng *mon.Rand, spec *gsp
 		fault = bodyFaults[rng.Intn(len(bodyFaults))]
 	}
 	faults := map[string]gspec.Fault{victim: fault}
-	fref := gspec.EvalGraph(spec, in, &gspec.RefEnv{Faults: faults})
-	if fref.Err != "nodefail" {
-		return // the failing branch is never evaluated on this input
+	if sfault != nil {
+		fault, faults = sfault.do, nil
+	} else {
+		fref := gspec.EvalGraph(spec, in, &gspec.RefEnv{Faults: faults})
+		if fref.Err != "nodefail" {
+			return // the failing branch is never evaluated on this input
+		}
+		if kind != "node-body" {
+			owner = "TOP" // branches of the top-level spec
+		}
 	}
 	var us []unit
 	units(spec, nil, &us)
 	var victimPath []string
 	for _, u := range us {
-		if kind == "node-body" && u.name == victim {
+		if (kind == "node-body" || sfault != nil) && u.name == victim {
 			victimPath = u.path
 		}
 	}
@@ -107,6 +157,9 @@ func failureRun(ctx context.Context, rep *mon.Reporter, rng *mon.Rand, spec *gsp
 	ctl := gspec.NewCtl("r")
 	ctl.Faults = faults
 	cctx := context.WithValue(gspec.WithCtl(ctx, ctl), recKey{}, rec)
+	if sfault != nil {
+		cctx = context.WithValue(cctx, stateFaultKey{}, sfault)
+	}
 	out, wres, dump := gspec.CallGuarded(cctx, r, para, in, rng.Uint64(), -1, opts...)
 	rep.AddEvaluations(1)
 	rep.Count("failure_runs", 1)
@@ -192,8 +245,12 @@ func failureRun(ctx context.Context, rep *mon.Reporter, rng *mon.Rand, spec *gsp
 		for _, n := range sorted {
 			s := starts[n]
 			who := "other-unit"
-			if n == victim {
+			if n == victim && sfault != nil {
+				who = "node-of-the-state-handler"
+			} else if n == victim {
 				who = "failing-unit"
+			} else if n == owner && n != "TOP" {
+				who = "failing-graph"
 			} else if n == "TOP" {
 				who = "graph"
 			}
@@ -208,10 +265,23 @@ func failureRun(ctx context.Context, rep *mon.Reporter, rng *mon.Rand, spec *gsp
 			}
 			rep.Count("failure_handler_unit_pairs_checked", 1)
 		}
+		// the graph on whose run loop a branch condition failed or a state handler panicked has failed: it
+		// produced nothing, that execution ends for the handlers with OnError (never with OnEnd alone)
+		if owner != "" && (h.Path == nil || below(h.Path)[owner]) {
+			if errs[owner] < 1 {
+				who := "nested"
+				if owner == "TOP" {
+					who = "top-level"
+				}
+				rep.Violation(ID+"/failure/failed-graph-without-OnError/"+sigTail+"/"+who, fmt.Sprintf("handler %s: graph %s, whose run loop failed, got %d start, %d end and %d error callbacks: no OnError\n%s%s", h.ID, owner, starts[owner], ends[owner], errs[owner], head, b.String()), wit)
+				return
+			}
+			rep.Count("failure_owner_graph_checks", 1)
+		}
 		// a panicking body fails at call time: the failing node ran exactly once (its first execution fails the
 		// run) for every handler that applies to it. (A body that returns an error may deliver it as an item
 		// of its output stream, which surfaces later: the node may have run several times by then.)
-		if victimPath != nil && (h.Path == nil || related(h.Path, victimPath) && len(h.Path) <= len(victimPath)) {
+		if kind == "node-body" && victimPath != nil && (h.Path == nil || related(h.Path, victimPath) && len(h.Path) <= len(victimPath)) {
 			if (faultClass(fault) == "panic" && starts[victim] != 1) || starts[victim] < 1 {
 				cl := "failing-unit-count"
 				if h.Path != nil {
